@@ -1215,17 +1215,24 @@ def f_cumsum(a, axis=None, **kw):
     if axis is None:
         r = r.ravel()
         axis = 0
-    vd = _sum_vd(a._vd)
+    dt = kw.get("dtype")
+    vd = numpy.dtype(dt) if dt is not None else _sum_vd(a._vd)
     moved = numpy.moveaxis(r, axis, -1)
     out = numpy.empty(moved.shape, dtype=object)
     for ix in numpy.ndindex(*moved.shape[:-1]):
         tot = None
         for k in range(moved.shape[-1]):
-            c = sym.to_int_cell(moved[ix + (k,)])
-            tot = c if tot is None else tot + c
+            c = moved[ix + (k,)]
+            if vd.kind == "b":
+                # the accumulator has the requested type: with dtype=bool the running sum is a running OR
+                b = c if (isinstance(c, SV) and c.is_bool) or isinstance(c, (bool, numpy.bool_)) else (c != 0)
+                tot = b if tot is None else sym.sv_or(tot, b)
+            else:
+                c = sym.to_int_cell(c) if vd.kind in "iu" else c
+                tot = c if tot is None else tot + c
             out[ix + (k,)] = tot
     out = numpy.moveaxis(out, -1, axis)
-    return SymArray(_cast_cells(out, vd), vd)
+    return SymArray(_cast_cells(out, vd) if vd.kind != "b" else out, vd)
 
 
 def _dotvec(u, v):
